@@ -132,8 +132,9 @@ class TranscriptInterval(AbstractFeatureInterval):
         self._genomic_ends = exon_ends
         self._strand = strand
         self._parent_or_seq_chunk_parent = parent_or_seq_chunk_parent
-        self.start = self.genomic_start = exon_starts[0]
-        self.end = self.genomic_end = exon_ends[-1]
+        # the span of the exons, whatever their order in the lists and also when one exon is nested in another
+        self.start = self.genomic_start = min(exon_starts)
+        self.end = self.genomic_end = max(exon_ends)
 
         self._is_primary_feature = is_primary_tx
         self.transcript_id = transcript_id
